@@ -95,6 +95,7 @@ type modEntry struct {
 
 // FG generates the verification conditions of one function.
 type FG struct {
+	loopEntrySt map[int]*State // memory state at the entry of each loop (by header block)
 	snapshotCells int // interior addresses stored to memory, modelled by snapshot cells
 	merges map[int]*mergeInfo
 	copyOut map[ssa.Value]copyOutInfo
